@@ -454,16 +454,18 @@ pub(crate) fn resolve_breakpoints(
     args: &SetBreakpointsArguments,
     ast: &AstModule,
 ) -> anyhow::Result<ResolvedBreakpoints> {
-    let poss: HashMap<usize, FileSpan> = ast
-        .stmt_locations()
-        .iter()
-        .map(|span| (span.resolve_span().begin.line, span.dupe()))
-        .collect();
+    // A line can hold several statements (`if c: f()`, `a = 1; b = 2`):
+    // the breakpoint goes to the statement the line starts with, which comes first.
+    let mut poss: HashMap<usize, FileSpan> = HashMap::new();
+    for span in ast.stmt_locations() {
+        poss.entry(span.resolve_span().begin.line).or_insert(span);
+    }
     Ok(ResolvedBreakpoints(args.breakpoints.as_ref().map_or(
         Vec::new(),
         |v| {
             v.map(|x| {
-                poss.get(&(x.line as usize - 1)).map(|span| Breakpoint {
+                let line = usize::try_from(x.line).ok().and_then(|l| l.checked_sub(1));
+                line.and_then(|line| poss.get(&line)).map(|span| Breakpoint {
                     span: span.clone(),
                     condition: x.condition.clone(),
                 })
